@@ -85,7 +85,7 @@ func frontEndData2(c *Case) (any, func()) {
 		if feCounter%2 == 0 {
 			body = struct{ io.Reader }{body}
 		}
-		req, _ := http.NewRequest("POST", "http://x.test/", body)
+		req, _ := http.NewRequest([]string{"POST", "PUT", "PATCH", "DELETE"}[feCounter%4], "http://x.test/", body)
 		if feCounter%4 == 0 {
 			req.ContentLength = -1 // what a server sees for a chunked request
 		}
@@ -94,7 +94,8 @@ func frontEndData2(c *Case) (any, func()) {
 	case "form":
 		vals := url.Values{}
 		flatValues(c.Input, c.Schema, "form", vals)
-		req, _ := http.NewRequest("POST", "http://x.test/", strings.NewReader(vals.Encode()))
+		feCounter++
+		req, _ := http.NewRequest([]string{"POST", "PUT", "PATCH"}[feCounter%3], "http://x.test/", strings.NewReader(vals.Encode()))
 		req.Header.Set("Content-Type", "application/x-www-form-urlencoded")
 		return zhttp.Request(req), func() {}
 	case "query":
